@@ -191,11 +191,19 @@ func suiteResp(r *rng, n int) {
 		stat("body-" + bclass)
 		emit("resp", "case", itoa(int64(i)), itoa(int64(status)), hxHeader(uh), hx(enc), itoa(int64(len(data))), hxb(body),
 			itoa(int64(minLen)), hx(filterSrc), b2s(cacheable), hx(bclass))
-		paths := []string{"fetch", "second", "restored", "post"}
+		paths := []string{"fetch", "second", "again", "restored", "post"}
 		for _, path := range paths {
 			ae := cr.pick(respAE)
 			method := "GET"
 			switch path {
+			case "again":
+				// another URL with a different, compressible body is fetched and cached in between: what was stored
+				// for the first URL must not be affected by later compressions
+				other := bytes.Repeat([]byte(fmt.Sprintf("other-%d-", i)), 300+cr.intn(3000))
+				oh := http.Header{"Content-Type": []string{"text/html"}, "Cache-Control": []string{"max-age=60"}}
+				p.setScript(answer(200, oh, other))
+				p.do("GET", "r.test", uri+"/other", http.Header{"Accept-Encoding": []string{"gzip, br"}}, nil)
+				p.setScript(answer(status, uh, data))
 			case "restored":
 				// drop every entry, keep the store: same store URL, fresh dispatcher
 				cache.ResetDispatchers(nil)
